@@ -791,3 +791,179 @@ func (g *gen) attackEpisode(cl **cluster, kind int) {
 		}
 	}
 }
+
+// ---------------------------------------------------------------------------------------------
+// preparedEpisode (C04, justification rule J2 under timely delivery; Props/C04Prepared.lean):
+// no Byzantine members, n-|R| members never start, |R| = quorum+extra members run. Rounds before
+// rho are lost, in round rho the leader's PRE-PREPARE reaches everybody, a non-empty subset P of the
+// running members receives a quorum of PREPAREs (they prepare and send COMMIT), the others fewer,
+// nobody receives a quorum of COMMITs; everything else of that round is lost and all round timers
+// fire. From then on delivery is timely: every message among running members arrives before any
+// timer fires, timers fire only when nothing is in flight. The ROUND-CHANGE set of the next round is
+// a mix of prepared and null ones; the first round whose leader runs (`good`) must decide - with
+// exactly quorum-many running members the prepared value (the leader must re-propose it, also when
+// it has no input of its own), otherwise that value or the leader's input.
+func (g *gen) preparedEpisode(cl **cluster, n int, leaderHasInput bool, extra int) {
+	g.cl = cl
+	if g.mon == nil {
+		g.mon = newMonitor(g.run)
+	}
+	g.n, g.q, g.f = n, (2*n+2)/3, (n-1)/3
+	g.off = int64(g.rng.Intn(n))
+	g.byz = map[int64]bool{}
+	g.honest = nil
+	for i := 0; i < n; i++ {
+		g.honest = append(g.honest, int64(i))
+	}
+	g.inbox = map[int64][]wire{}
+	g.hWires = nil
+	g.hCores = map[core]bool{}
+	g.values = []int64{1, 2, 3}
+	g.maxRound = 1
+	g.do(fmt.Sprintf("cfg %d 100 %d", n, g.off))
+	g.run.Count("prepared-episode")
+	nRun := g.q + extra
+	if nRun > n {
+		nRun = n
+	}
+	if nRun > g.q {
+		leaderHasInput = true // a null quorum may reach the leader first: it then needs a proposal
+	}
+	running := map[int64]bool{}
+	for _, i := range g.rng.Perm(n)[:nRun] {
+		running[int64(i)] = true
+	}
+	var R []int64
+	for i := 0; i < n; i++ {
+		if running[int64(i)] {
+			R = append(R, int64(i))
+		}
+	}
+	rho := int64(1 + g.rng.Intn(2))
+	for !running[g.leader(rho)] {
+		rho++
+	}
+	good := rho + 1
+	for !running[g.leader(good)] {
+		good++
+	}
+	for _, p := range R {
+		g.do(fmt.Sprintf("start %d", p))
+		if p == g.leader(good) && !leaderHasInput {
+			continue
+		}
+		g.do(fmt.Sprintf("input %d %d", p, 10+p))
+	}
+	v := 10 + g.leader(rho)
+	shuffled := func(xs []int64) []int64 {
+		out := make([]int64, len(xs))
+		for i, j := range g.rng.Perm(len(xs)) {
+			out[i] = xs[j]
+		}
+		return out
+	}
+	// rounds 1..rho-1 are lost; the ROUND-CHANGEs for rho reach everybody
+	for i := int64(1); i < rho; i++ {
+		for _, p := range R {
+			g.do(fmt.Sprintf("timeout %d", p))
+		}
+	}
+	if rho > 1 {
+		for _, p := range R {
+			for _, s := range shuffled(R) {
+				g.deliverTo(p, 4, s, rho)
+			}
+		}
+	}
+	// round rho: PRE-PREPARE to everybody, a PREPARE quorum only to the members of P
+	for _, p := range R {
+		g.deliverTo(p, 1, g.leader(rho), rho)
+	}
+	nP := 1 + g.rng.Intn(len(R))
+	inP := map[int64]bool{}
+	var P []int64
+	for _, p := range shuffled(R)[:nP] {
+		inP[p] = true
+	}
+	for _, p := range R {
+		if inP[p] {
+			P = append(P, p)
+		}
+	}
+	for _, p := range R {
+		from := shuffled(R)
+		if !inP[p] {
+			from = from[:g.rng.Intn(g.q)] // fewer than a quorum
+		}
+		for _, s := range from {
+			g.deliverTo(p, 2, s, rho)
+		}
+	}
+	for _, p := range R {
+		maxC := len(P)
+		if maxC > g.q-1 {
+			maxC = g.q - 1
+		}
+		for _, s := range shuffled(P)[:g.rng.Intn(maxC+1)] {
+			g.deliverTo(p, 3, s, rho)
+		}
+	}
+	undecided := func() bool {
+		for _, p := range R {
+			if !(*cl).nodes[p].decided {
+				return true
+			}
+		}
+		return false
+	}
+	prepared := 0
+	for _, p := range P {
+		if _, ok := g.findWire(3, p, rho); ok {
+			prepared++
+		}
+	}
+	g.run.Case(fmt.Sprintf("prepared:n%d:run%d:P%d:rho%d:gap%d:leaderinput%v", n, len(R), len(P), min64(rho, 4), min64(good-rho, 4), leaderHasInput))
+	if prepared != len(P) {
+		g.run.Violate("qbft:no_decision_under_timely_delivery", fmt.Sprintf("prepared episode n=%d: %d of the %d members that received a PREPARE quorum in round %d sent a COMMIT", n, prepared, len(P), rho))
+	}
+	// everything else of round rho is lost; all timers fire; from now on delivery is timely
+	for _, h := range g.honest {
+		g.inbox[h] = nil
+	}
+	drain := func() {
+		for progress := true; progress; {
+			progress = false
+			for _, p := range R {
+				for len(g.inbox[p]) > 0 {
+					w := g.inbox[p][0]
+					g.inbox[p] = g.inbox[p][1:]
+					g.do(fmt.Sprintf("recv %d ok %s", p, w.String()))
+					progress = true
+				}
+			}
+		}
+	}
+	rounds := 0
+	for undecided() && rounds < n+2 {
+		for _, p := range R {
+			if !(*cl).nodes[p].decided {
+				g.do(fmt.Sprintf("timeout %d", p))
+			}
+		}
+		rounds++
+		drain()
+	}
+	if undecided() {
+		g.run.Violate("qbft:no_decision_under_timely_delivery", fmt.Sprintf("prepared episode n=%d running=%d prepared=%d in round %d (value %d): running members did not decide after %d further timeouts each (leader of round %d runs, has input: %v)", n, len(R), len(P), rho, v, rounds, good, leaderHasInput))
+		return
+	}
+	for _, p := range R {
+		d := g.mon.decided[p]
+		if d[1] > good {
+			g.run.Violate("qbft:decision_later_than_one_rotation", fmt.Sprintf("prepared episode n=%d: node %d decided in round %d, the leader of round %d was running", n, p, d[1], good))
+		}
+		if d[0] != v && (len(R) == g.q || d[0] != 10+g.leader(good)) {
+			g.run.Violate("qbft:honest_prepared_value_not_reproposed", fmt.Sprintf("prepared episode n=%d running=%d: node %d decided %d in round %d although %d members had prepared %d in round %d", n, len(R), p, d[0], d[1], len(P), v, rho))
+		}
+	}
+}
